@@ -436,16 +436,18 @@ class Body:
                     lhs = st["lhs"]
                     if not lhs["p"]:
                         d.setdefault(lhs["l"], []).append((bi, si, "assign", st["rv"]))
-                    else:
+                    elif lhs["p"][0] != "deref":
+                        # a store through a dereference writes the pointee, not the local
                         d.setdefault(lhs["l"], []).append((bi, si, "partial", st))
                 elif st["s"] == "setdiscr":
-                    d.setdefault(st["lhs"]["l"], []).append((bi, si, "partial", st))
+                    if not st["lhs"]["p"] or st["lhs"]["p"][0] != "deref":
+                        d.setdefault(st["lhs"]["l"], []).append((bi, si, "partial", st))
             t = blk["term"]
             if t["t"] == "call":
                 dest = t["dest"]
                 if not dest["p"]:
                     d.setdefault(dest["l"], []).append((bi, "term", "call", t))
-                else:
+                elif dest["p"][0] != "deref":
                     d.setdefault(dest["l"], []).append((bi, "term", "partial", t))
         self._defs = d
         return d
@@ -587,7 +589,7 @@ def strip_ref(t):
 
 
 def proj_field(base, e):
-    name = e.get("name", e["f"])
+    name = str(e.get("name", e["f"]))
     # field of a checked-arithmetic pair
     if isinstance(base, tuple) and base[0] == "bin" and base[1].endswith("WithOverflow"):
         if e["f"] == 0:
